@@ -566,7 +566,12 @@ class Ctx:
               "wall_s": round(time.time() - self.t0, 2), "violations": reported}
         if self.notes:
             ev["coverage"]["notes"] = self.notes
-        with open(os.path.join(ROOT, "evidence", self.pid + ".json"), "w") as f:
+        evdir = os.path.join(ROOT, "evidence")
+        if REPO != "/repo" or os.environ.get("VERIF_DEV_SKIP_PROOFS"):
+            # runs against a scratch tree (seeded changes) or development runs never touch the committed evidence
+            evdir = os.path.join(BUILD, "scratch_evidence")
+            os.makedirs(evdir, exist_ok=True)
+        with open(os.path.join(evdir, self.pid + ".json"), "w") as f:
             json.dump(ev, f, indent=1, default=str)
         log("%s %s: %s in %.1fs (evaluations=%s)" % (self.pid, self.tier, "VIOLATIONS=%d" % reported if reported else "ok",
                                                       time.time() - self.t0, cov.get("evaluations")))
@@ -652,10 +657,13 @@ def seq_differential(ctx, spec, exe, proofs_ok, tag=None, scale=1.0):
         if r:
             oracle_fail[c["id"]] = r
     # correspondence: model evaluated inside Coq
-    terms = [spec.coq_case(c, obs_by_id[c["id"]]) for c in cases]
+    terms = [spec.coq_case(c, obs_by_id[c["id"]]) for c in cases] if spec.checkers else []
     corr_fail = {}
     t = time.time()
-    corr_fail, cerr = eval_failing_multi(spec.imports, terms, spec.checkers, "%s_%s" % (ctx.pid, tag), preamble=spec.preamble)
+    if spec.checkers:
+        corr_fail, cerr = eval_failing_multi(spec.imports, terms, spec.checkers, "%s_%s" % (ctx.pid, tag), preamble=spec.preamble)
+    else:
+        corr_fail, cerr = {}, None
     if cerr:
         ctx.violation("%s:model-eval-error" % tag, "Coq evaluation of the model failed: " + cerr[:1500],
                       {"component": spec.component, "error": cerr}, failing_input=False)
